@@ -4,6 +4,7 @@
 //! Worker response = `<observables>` [TAB `#FAIL:<reason>`]. The observables are compared with
 //! the model's; the `#FAIL` suffix is the property's own oracle evaluated on the real code.
 
+mod codec;
 mod cpr;
 mod deb;
 mod docspec;
@@ -38,6 +39,9 @@ fn dispatch(op: &str, args: &[&str]) -> Option<Resp> {
     if let Some(r) = lossy::handle(op, args) {
         return Some(r);
     }
+    if let Some(r) = codec::handle(op, args) {
+        return Some(r);
+    }
     if let Some(r) = cpr::handle(op, args) {
         return Some(r);
     }
@@ -53,6 +57,7 @@ fn dispatch(op: &str, args: &[&str]) -> Option<Resp> {
 fn generate(prop: &str, tier: &str, seed: u64, out: &mut util::Out) {
     match prop {
         "C17" => cpr::generate_c17(tier, seed, out),
+        "C18" => codec::generate_c18(tier, seed, out),
         "C19" => pgp::generate(tier, seed, out),
         "C01" => deb::generate_c01(tier, seed, out),
         "C02" => total::generate_c02(tier, seed, out),
